@@ -5,6 +5,7 @@
 #define HAVE_STD_STRING
 #define CONTAINERS_MODEL
 #define ITERATOR_MODEL
+#define ISCONST_PINNED
 #include "prelude.h"
 #include "containers.h"
 
@@ -17,6 +18,7 @@
 
 struct Value *_ZNK4bloc22MemberDELETEExpression5valueERNS_7ContextE(struct MemberDELETEExpression *this, struct Context *ctx)
 __CPROVER_requires(IS_FRESH(this, sizeof(*this)) && IS_FRESH(ctx, sizeof(*ctx)) && IS_FRESH(this->_base_MemberExpression._exp, sizeof(struct Expression)))
+__CPROVER_requires(INPUT_STATE(g_isconst_answer))
 __CPROVER_requires(INPUT_STATE(g_nargs))
 __CPROVER_requires(g_nargs == 1 && ARGS_PINNED && __exc == 0 && g_eval_n == 0 && __caught_n == 0 && GLOBALS_PINNED)
 EVAL_ASSIGNS
@@ -31,6 +33,11 @@ PROP(C09) __CPROVER_ensures((g_eval_n == 2 && CONTAINER(RCV) && POS_INT && IN_RA
 ENS_FRAME2
 /* C02: the call is typed like its receiver, and a successful call returns a value of the receiver's (defined) type */
 PROP(C02) __CPROVER_ensures((OK && g_eval_n >= 1 && V_MAJOR(A1) != NO_TYPE) ==> (V_MAJOR(RET) == V_MAJOR(A1) && V_LEVEL(RET) == V_LEVEL(A1) && (V_MINOR(RET) == V_MINOR(A1) || (V_MAJOR(A1) == ROWTYPE && V_MINOR(A1) == 0 /* opaque tuple declaration */))))
+/* C05 / C14: a receiver that is a constant of the program (a string literal in the source, shared by every run and every clone of the compiled
+ * program) is only read -- whether or not the code asks isConst() */
+PROP(C05, C14) __CPROVER_ensures((g_isconst_answer && g_eval_n >= 1 && V_IS(A1, LITERAL) && !V_ISNULL(A1)) ==> (V_SAME(O1, A1) && (FRAME_STR(O1, A1, 0))))
+/* (a constant node hands out owned storage: proved by the const_* jobs, so V_LVALUE(A1) is part of what 'constant receiver' means) */
+PROP(C05, C14) __CPROVER_ensures((OK && g_isconst_answer && g_eval_n >= 1 && V_IS(A1, LITERAL) && !V_ISNULL(A1) && V_LVALUE(A1)) ==> (RET != O1 && !V_LVALUE(RET)))   /* ... and never handed out as the receiver of a further in-place method */
 ;
 
 #include FNS_C
